@@ -27,8 +27,10 @@ use vstore::{Answer, Call, Controller, Verb};
 pub enum Policy {
     BeforeVersion(u64),
     RetainN(usize),
-    /// `cleanup_old_versions(older_than = 0)`: everything but latest / tagged
+    /// before_timestamp = now + 1h: everything but latest / tagged
     All,
+    /// `Dataset::cleanup_old_versions(older_than = 0, delete_unverified, error_if_tagged)`: cutoff = now
+    OlderThanZero,
 }
 
 #[derive(Clone, Debug, Serialize, Deserialize)]
@@ -46,6 +48,9 @@ pub struct CleanCase {
     pub policy: Policy,
     pub delete_unverified: bool,
     pub error_if_tagged: bool,
+    /// version of the handle cleanup runs on (None = freshly opened latest)
+    #[serde(default)]
+    pub handle: Option<u64>,
 }
 
 async fn build_policy(ds: &lance::Dataset, c: &CleanCase) -> lance::Result<CleanupPolicy> {
@@ -59,7 +64,7 @@ async fn build_policy(ds: &lance::Dataset, c: &CleanCase) -> lance::Result<Clean
             return Ok(p);
         }
         Policy::RetainN(n) => b = b.retain_n_versions(ds, *n).await?,
-        Policy::All => b = b.before_timestamp(chrono::Utc::now() + Duration::hours(1)),
+        Policy::All | Policy::OlderThanZero => b = b.before_timestamp(chrono::Utc::now() + Duration::hours(1)),
     }
     Ok(b.build())
 }
@@ -219,6 +224,7 @@ async fn build_history(ops: &[Op]) -> Result<History, String> {
 #[derive(Default)]
 struct CaseStats {
     cases: u64,
+    stale_cases: u64,
     outcomes: BTreeMap<String, u64>,
     nontrivial: BTreeSet<u64>,
     samples: Vec<Value>,
@@ -231,7 +237,7 @@ fn selected(policy: &Policy, versions: &[u64], v: u64) -> bool {
             let cut = if versions.len() <= *n { versions[0] } else { versions[versions.len() - n] };
             v < cut
         }
-        Policy::All => true,
+        Policy::All | Policy::OlderThanZero => true,
     }
 }
 
@@ -253,18 +259,31 @@ async fn run_case(
     let latest = ds.version().version;
     let versions_before: Vec<u64> = ds.versions().await.map(|v| v.iter().map(|x| x.version).collect()).unwrap_or_default();
     let tagged = tagged_versions(&t).await;
-    let policy = match build_policy(&ds, c).await {
-        Ok(p) => p,
-        Err(e) => return ("policy-error".into(), false, vec![("policy".into(), e.to_string())]),
+    // the handle cleanup runs on: the latest, or one pinned at an earlier version (stale handle)
+    let ds = match c.handle {
+        None => ds,
+        Some(h) => match t.open_version(h).await {
+            Ok(d) => d,
+            Err(e) => return ("setup-error".into(), false, vec![("setup".into(), format!("cannot open handle v{h}: {e}"))]),
+        },
     };
-    let res = catch_async(ds.cleanup_with_policy(policy)).await;
+    let handle_version = ds.version().version;
+    let res = if c.policy == Policy::OlderThanZero {
+        catch_async(ds.cleanup_old_versions(Duration::zero(), Some(c.delete_unverified), Some(c.error_if_tagged))).await
+    } else {
+        let policy = match build_policy(&ds, c).await {
+            Ok(p) => p,
+            Err(e) => return ("policy-error".into(), false, vec![("policy".into(), e.to_string())]),
+        };
+        catch_async(ds.cleanup_with_policy(policy)).await
+    };
     let after_paths: BTreeSet<String> = t.env.store.paths().into_iter().collect();
     let deleted: Vec<&String> = before_paths.difference(&after_paths).collect();
-    let what = format!("after cleanup {:?} unverified={} err_if_tagged={}", c.policy, c.delete_unverified, c.error_if_tagged);
+    let what = format!("after cleanup {:?} unverified={} err_if_tagged={} from a handle at v{handle_version} (latest v{latest})", c.policy, c.delete_unverified, c.error_if_tagged);
     let tagged_old_selected: Vec<u64> = versions_before
         .iter()
         .cloned()
-        .filter(|v| tagged.contains(v) && *v != latest && selected(&c.policy, &versions_before, *v))
+        .filter(|v| tagged.contains(v) && *v < handle_version && selected(&c.policy, &versions_before, *v))
         .collect();
     let mut label;
     match &res {
@@ -418,16 +437,24 @@ fn run_history(ctx: &Ctx, ops: Vec<Op>, deadline: std::time::Instant) -> HistRep
             policies.push(Policy::RetainN(1));
             policies.push(Policy::RetainN(2));
             policies.push(Policy::All);
-            for p in policies {
+            policies.push(Policy::OlderThanZero);
+            // handles: the latest, and one pinned at every earlier listed version
+            let listed: Vec<u64> = ds.versions().await.map(|v| v.iter().map(|x| x.version).collect()).unwrap_or_default();
+            let mut handles: Vec<Option<u64>> = vec![None];
+            handles.extend(listed.iter().filter(|v| **v < latest).map(|v| Some(*v)));
+            for (hd, p) in handles.iter().flat_map(|hd| policies.iter().map(move |p| (*hd, p.clone()))) {
                 for du in [false, true] {
                     for eit in if has_tags { vec![false, true] } else { vec![false] } {
                         if std::time::Instant::now() > deadline {
                             return Err("WALL-CAP".into());
                         }
-                        let c = CleanCase { ops: h.ops.clone(), env: env.clone(), policy: p.clone(), delete_unverified: du, error_if_tagged: eit };
+                        let c = CleanCase { ops: h.ops.clone(), env: env.clone(), policy: p.clone(), delete_unverified: du, error_if_tagged: eit, handle: hd };
                         let (label, nontrivial, probs) = run_case(&c, &state, &h.all_snaps, &orphans).await;
                         stats.cases += 1;
-                        *stats.outcomes.entry(format!("aged={} orphan={} unverified={du}: {label}", env.aged, env.orphan)).or_insert(0) += 1;
+                        if hd.is_some() {
+                            stats.stale_cases += 1;
+                        }
+                        *stats.outcomes.entry(format!("handle={} aged={} orphan={} unverified={du}: {label}", if hd.is_some() { "stale" } else { "latest" }, env.aged, env.orphan)).or_insert(0) += 1;
                         let cv = serde_json::to_value(&c).unwrap();
                         if nontrivial {
                             stats.nontrivial.insert(vcore::hash64(cv.to_string().as_bytes()));
@@ -526,7 +553,7 @@ impl Scenario for CleanRace {
             let r = async {
                 let ds = a.open().await?;
                 opened.store(ds.version().version, std::sync::atomic::Ordering::SeqCst);
-                let c = CleanCase { ops: vec![], env: EnvVariant { aged: cfg.aged, orphan: "none".into() }, policy: cfg.policy.clone(), delete_unverified: cfg.delete_unverified, error_if_tagged: false };
+                let c = CleanCase { ops: vec![], env: EnvVariant { aged: cfg.aged, orphan: "none".into() }, policy: cfg.policy.clone(), delete_unverified: cfg.delete_unverified, error_if_tagged: false, handle: None };
                 let p = build_policy(&ds, &c).await?;
                 ds.cleanup_with_policy(p).await
             }
@@ -748,6 +775,7 @@ pub fn run(ctx: &Ctx) -> Outcome {
             None => hist_done += 1,
         }
         stats.cases += r.stats.cases;
+        stats.stale_cases += r.stats.stale_cases;
         for (k, v) in r.stats.outcomes {
             *stats.outcomes.entry(k).or_insert(0) += v;
         }
@@ -823,6 +851,7 @@ pub fn run(ctx: &Ctx) -> Outcome {
     out.set("histories", n_hist as u64);
     out.set("histories_completed", hist_done);
     out.set("cleanup_cases", stats.cases);
+    out.set("cleanup_cases_from_stale_handle", stats.stale_cases);
     out.set("cleanup_cases_nontrivial", stats.nontrivial.len() as u64);
     out.set("nontrivial_rule", "cleanup cases in which at least one manifest or file was removed, or cleanup refused because of a tagged old version");
     let mut oc: BTreeMap<String, u64> = stats.outcomes.clone();
